@@ -10,7 +10,7 @@ from vlib import core
 from checks import parsegen
 from checks import probe_common as pc
 
-THEOREMS = ["C02_backends_agree", "C02_ssr_text", "C02_lit_wrapper", "C02_scope_transparent", "C02_scope_chain",
+THEOREMS = ["C02_backends_agree", "C02_ssr_text", "C02_lit_wrapper", "C02_literals_agree", "C02_literals_instance", "C02_scope_transparent", "C02_scope_chain",
             "C02_arm_select", "C02_defaulted_agree", "C02_defaulted_literal", "C02_effective_is_walk", "C02_defaulted_config", "C02_ranges_agree", "C02_plurals_agree",
             "C02_spec"]
 THEOREMS_C01B = ["C01_codegen_view", "C01_codegen_string", "C01_tuple_order", "C01_tuple_order_eval", "C01_flatten_atoms",
@@ -71,6 +71,9 @@ def coq_src(value):
         v = value[1]
         if isinstance(v, bool):
             return "(SrcLit (LBool %s))" % ("true" if v else "false")
+        if isinstance(v, float):
+            # the canonical printing of an f64 (Rust `{}`) is an oracle: computed by probe_common.rust_display
+            return "(SrcLit (LFloat %s))" % core.coq_str(pc.rust_display(v))
         if v < 0:
             return "(SrcLit (LSigned (%d)%%Z))" % v
         return "(SrcLit (LUnsigned %d))" % v
